@@ -11,6 +11,8 @@ var stdAssumptions = []string{
 // expectedReach lists, per property, the reach counters that a healthy run of
 // the check should see above zero; those at zero are reported as blind spots.
 var expectedReach = map[string][]string{
+	"C04": {"whole-circuit.transcripts-scanned", "streaming.transcripts-scanned", "sha2pc.transcripts-scanned"},
+	"C18": {"curve.P-256", "curve.P-224", "curve.P-384", "mixing.rejected", "mixing.other-curve", "mixing.sizes-compared", "mutation.rejected", "mutation.still-decodes", "round3.other-length-refused"},
 	"C10": {"parties=2", "parties=3", "parties=4", "parties=5", "circuit.compiled-for-GMW", "circuit.and-levels>3", "triples.checked-words", "cond.wakeup"},
 	"C05": {"program.generated", "program.corpus", "wires>65535"},
 	"C20": {"scenario.vole.Mul", "vole.multi-chunk", "vole.repeated-mul-on-one-instance"},
@@ -23,6 +25,18 @@ var expectedReach = map[string][]string{
 }
 
 var props = map[string]propCfg{
+	"C04": {
+		Quick: 30 * time.Second, Thorough: 10 * time.Minute, Level: "exploration", DetSample: 12,
+		Rule:        "one case = one seeded session whose complete garbler->evaluator byte stream is recorded by the simulated pipe (whole-circuit mode 4/8: generated circuits, all OT kinds; streaming mode 3/8: corpus and generated MPCL programs) or the encoded Round 1 + Round 3 messages of a sha2pc run (1/8); the offset R is learned from the wires handed to the OT layer (all must agree) or, for sha2pc, by differential replay of the identical run with one garbler input bit flipped; the monitor builds the set of all 16-byte windows at every byte offset and reports R itself or two windows differing by R; non-trivial = every scanned transcript; distinct = distinct SHA-256 of the event log",
+		Components:  map[string]string{"circuit.Garbler/Evaluator, compiler.Stream/StreamEvaluator, sha2pc rounds and encodings, ot.*, p2p.Conn": "real code", "transport and transcript recording": "simulated pipe", "randomness": "seeded DRBG (labels behave like random 128-bit strings; the chance of an accidental hit is about |W|^2/2^128)"},
+		Assumptions: stdAssumptions,
+	},
+	"C18": {
+		Quick: 30 * time.Second, Thorough: 12 * time.Minute, Level: "fault_enumeration", DetSample: 10,
+		Rule:        "one case = one seeded scenario on a curve in {P-256 (most), P-224, P-384, P-521}: (a) the four-round protocol between a garbler process and an evaluator process (tasks) that persist session and received messages on a simulated disk, exchange encoded messages over a simulated pipe and crash/restart (only the disk survives, fresh randomness) at any subset of the five round boundaries - the 32 subsets are sampled uniformly from the fault stream; (b) two independent sessions with every cross-feeding of messages/sessions/curves and replayed rounds; (c) 40..200 mutations (bit flip, truncation, extension, splice, 32-bit boundary values) of the five encodings, decodable results followed through the next round function; oracle: digest == crypto/sha256(a xor b), encode(decode(x)) == x, equal lengths across sessions of a curve, round-3 length enforced, foreign pieces never yield a digest, no panic; non-trivial = every case; distinct = distinct SHA-256 of the event log",
+		Components:  map[string]string{"sha2pc rounds and encodings, circuit.Garble/Eval, ot.co_helpers": "real code", "process boundary, disk, transport": "simulated (tasks, simdisk, simnet pipe with own framing)", "reference": "crypto/sha256"},
+		Assumptions: stdAssumptions,
+	},
 	"C10": {
 		Quick: 35 * time.Second, Thorough: 12 * time.Minute, Level: "exploration", DetSample: 8,
 		Rule:        "one case = one seeded GMW session of N in 2..5 parties on the simulated network: circuit generated (XOR/XNOR/AND/INV, 1..12-bit inputs, up to 300 gates, AND-heavy shapes with many levels and batch sizes not multiple of 64) or compiled from a small N-party MPCL program for the GMW target; inputs zero/ones/single-bit/random; a harness Pool.Get(n) with n in {1,63,64,65,100,127,129,1000,4095,4097} at every party before Run; start delays before Join, Connect and Run, dial latency, socket capacity, fragmentation, latency and every interleaving decision of the parties' main, accept, triple-producer and connection-writer tasks from the tape; oracle = truth-table evaluation and the triple relation on every bit; non-trivial = more than 4 task switches; distinct = distinct SHA-256 of the event log",
